@@ -74,6 +74,16 @@ example : parseIso b!"20150830T123660Z" = none := by decide
 example : parseIso b!"20150830T123600" = none := by decide
 example : parseIso b!" 20150830T123600Z" = none := by decide
 
+/-- Nothing may stand before or after a timestamp: one extra byte of any value on either side of a
+well-formed timestamp makes the pattern fail (header values lose their surrounding *spaces* before
+they get here, `normHeaderValue`; no other byte is forgiven). -/
+theorem matchIso_no_padding (t : IsoText) (h : t.wf) (b : UInt8) :
+    matchIso (b :: t.render) = none ∧ matchIso (t.render ++ [b]) = none := by
+  exact ⟨SigV4.c16_matchIso_prepend t b, SigV4.c16_matchIso_append t h b⟩
+
+example : parseIso (b!"20150830T123600Z" ++ [0xA0]) = none := by decide
+example : parseIso ([0x09] ++ b!"20150830T123600Z") = none := by decide
+
 end SigV4.C16
 
 #print axioms SigV4.C16.matchIso_render
@@ -87,3 +97,4 @@ end SigV4.C16
 #print axioms SigV4.C16.compact_shape
 #print axioms SigV4.C16.sts_timestamp_line
 #print axioms SigV4.C16.bad_timestamp_error
+#print axioms SigV4.C16.matchIso_no_padding
